@@ -38,6 +38,7 @@ inductive Msg where
   | restart (poison : Bool)
   | watch | unwatch
   | deadLetter (env : Nat) (isUser : Bool) (depth : Nat)   -- DeathLetterEvent for envelope id `env`
+  | event (ty : Nat) (pid : Nat)         -- a stream event of type `ty`, publication number `pid`
   deriving DecidableEq, Repr
 
 structure Env where
@@ -56,6 +57,7 @@ inductive Action where
   | unstash (n : Nat)                      -- 0 = the no-argument fast path (one message)
   | watch (t : String) | unwatch (t : String)
   | become (script : Nat) | unbecome
+  | sub (ty : Nat) | unsub (ty : Nat) | unsubAll | pub (ty : Nat)     -- event stream
   deriving DecidableEq, Repr
 
 /-- Trigger of a rule: 0 launch, 1 kill, 2 own killed, 3 other's killed, 100+k user payload k. -/
@@ -95,6 +97,8 @@ structure Sys where
   log : List String                  -- observable events of the last step (cleared by the driver)
   deadLetters : List Nat             -- envelope ids published as dead letters
   guardClosed : Bool
+  subs : List (Nat × Path × Cid)     -- event stream: (event type, subscriber path, subscriber's ref)
+  nextPub : Nat
 
 def blankCtx : Ctx :=
   { path := "", name := "", parent := none, state := .killed, zombie := false, restarting := none,
@@ -105,7 +109,7 @@ def rootCtx : Ctx := { blankCtx with path := "/", state := .running }
 
 def init (fixedLaunch : Bool) : Sys :=
   { n := 1, ctx := fun c => if c = 0 then rootCtx else blankCtx, registry := [], refs := [],
-    nextEnv := 1, scripts := [], fixedLaunch := fixedLaunch, log := [], deadLetters := [], guardClosed := false }
+    nextEnv := 1, scripts := [], fixedLaunch := fixedLaunch, log := [], deadLetters := [], guardClosed := false, subs := [], nextPub := 1 }
 
 def upd (s : Sys) (c : Cid) (f : Ctx → Ctx) : Sys :=
   { s with ctx := fun x => if x = c then f (s.ctx c) else s.ctx x }
@@ -181,6 +185,7 @@ def triggerOf : Msg → Nat → Cid → Option Nat
   | .onKill _, _, _ => some 1
   | .onKilled w, _, self => if w = self then some 2 else some 3
   | .user k, _, _ => some (100 + k)
+  | .event ty _, _, _ => some (200 + ty)
   | _, _, _ => none
 
 def ruleFor (sc : Script) (trig : Nat) : List Action :=
@@ -213,6 +218,16 @@ def failed (s : Sys) (self : Cid) : Sys :=
   let t : Target := match (s.ctx self).parent with | some p => .own p | none => .nobody
   say (tell s1 true (some self) t (.supervise [(self, [])] [])) s!"failed:{self}"
 
+/-! Event-stream table operations (`internal/actor/event_stream.go`); each is one critical section. -/
+abbrev Subs := List (Nat × Path × Cid)
+
+def esSub (subs : Subs) (ty : Nat) (p : Path) (c : Cid) : Subs :=
+  if subs.any (fun e => e.1 = ty ∧ e.2.1 = p) then subs else subs ++ [(ty, p, c)]
+def esUnsub (subs : Subs) (ty : Nat) (p : Path) : Subs := subs.filter (fun e => !(e.1 = ty ∧ e.2.1 = p))
+def esUnsubAll (subs : Subs) (p : Path) : Subs := subs.filter (fun e => e.2.1 ≠ p)
+/-- The snapshot `Publish` takes: the refs subscribed to the type. -/
+def esTargets (subs : Subs) (ty : Nat) : List Cid := (subs.filter (fun e => e.1 = ty)).map (fun e => e.2.2)
+
 structure Run where
   s : Sys
   panicked : Bool
@@ -239,6 +254,18 @@ def runActions (s : Sys) (self : Cid) (cur : Env) : List Action → Run
     | .unwatch t => runActions (tell s true (some self) (evalTarget s self cur t) .unwatch) self cur rest
     | .become sc => runActions (upd s self (fun x => { x with behaviors := [sc] })) self cur rest
     | .unbecome => runActions (upd s self (fun x => { x with behaviors := [x.script] })) self cur rest
+    | .sub ty =>
+      -- keyed by (type, path): subscribing twice has no additional effect
+      runActions { s with subs := esSub s.subs ty (s.ctx self).path self } self cur rest
+    | .unsub ty =>
+      runActions { s with subs := esUnsub s.subs ty (s.ctx self).path } self cur rest
+    | .unsubAll =>
+      runActions { s with subs := esUnsubAll s.subs (s.ctx self).path } self cur rest
+    | .pub ty =>
+      -- snapshot of the current subscribers of the type, then one tell each (from the root)
+      let targets := esTargets s.subs ty
+      let s1 := targets.foldl (fun acc t => tell acc false (some 0) (.own t) (.event ty s.nextPub)) { s with nextPub := s.nextPub + 1 }
+      runActions s1 self cur rest
 
 /-- Run the current behaviour (top of the stack; nothing for a zombie) on the current message. -/
 def guardBehave (s : Sys) (viewMsg : Msg) : Sys :=
@@ -279,7 +306,9 @@ def unregister (s : Sys) (p : Path) : Sys := { s with registry := s.registry.fil
 /-- `cleanupIfNotRestarting`: release the path, notify watchers and parent. -/
 def cleanup (s : Sys) (self : Cid) : Sys :=
   let c := s.ctx self
-  let s1 := unregister s c.path
+  -- `EventStream().UnsubscribeAll(ctx)`: by path
+  let s0 := { s with subs := esUnsubAll s.subs c.path }
+  let s1 := unregister s0 c.path
   let s2 := tellAll s1 true (some self) c.watchers (.onKilled self)
   let s3 := match c.parent with
     | some p => tell s2 true (some self) (.own p) (.onKilled self)
@@ -398,6 +427,7 @@ def handle (s : Sys) (self : Cid) (e : Env) : Sys :=
       | none => s
     | .user k => execRecover s self beh e (.user k)
     | .deadLetter x u d => execRecover s self beh e (.deadLetter x u d)
+    | .event ty pid => execRecover s self beh e (.event ty pid)
 
 /-- Is there an envelope the mailbox may process now? -/
 def deliverable (c : Ctx) : Bool := !c.sysQ.isEmpty || (!c.paused && !c.userQ.isEmpty)
